@@ -39,7 +39,7 @@ InvReasonDev == Roundtrips(ReasonDev(text), text) <=> ~ReasonTrigger(text)
 InvDescDev   == \A tabs \in TabChoices : \A single \in BOOLEAN :
                   Roundtrips(DescDev(text, tabs, single), text) <=> ~DescTrigger(text, single)
 InvSpecifiedByDev == Roundtrips(SpecifiedByDev(text), text) <=> ~SpecifiedByTrigger(text)
-InvDefaultDev == Roundtrips(DefaultDev(text), text) <=> ~DefaultTrigger(text)
+InvDefaultToday == Roundtrips(DefaultToday(text), text)
 
 \* ---- mode G: the base type system and its string slots ------------------------------------------------------
 EmptyFn == [x \in {} |-> 0]
